@@ -150,6 +150,7 @@ package db
 // before tfirst(t,k) iff its rowid is < k; and interior separator keys separate: rowids in child i
 // are <= key i, rowids after child i are > key i.
 //@ axioms table_sorted
+//@ (assert (forall ((p (_ BitVec 64))) (! (= (tree_of (tree_of p)) (tree_of p)) :pattern ((tree_of p)))))
 //@ (assert (forall ((p (_ BitVec 64))) (! (and (bvule (p_lo (tree_of p)) (p_lo p)) (bvule (p_lo p) (p_hi p)) (bvule (p_hi p) (p_hi (tree_of p))) (bvule (p_hi (tree_of p)) #x0000ffffffffffff)) :pattern ((p_lo p)) :pattern ((p_hi p)))))
 //@ (assert (forall ((t (_ BitVec 64)) (k (_ BitVec 64))) (! (and (bvule (p_lo t) (tfirst t k)) (bvule (tfirst t k) (p_hi t))) :pattern ((tfirst t k)))))
 //@ (assert (forall ((t (_ BitVec 64)) (k (_ BitVec 64)) (j (_ BitVec 64))) (! (=> (and (bvule (p_lo t) j) (bvult j (p_hi t))) (= (bvult j (tfirst t k)) (bvslt (tb_rowid t j) k))) :pattern ((tfirst t k) (tb_rowid t j)))))
@@ -388,6 +389,7 @@ package db
 // Well-formedness: positions nest, and the entries are sorted under the key's comparison flags,
 // which is what makes ifirst well defined: entry j lies before ifirst(t,k) iff Search(k, entry j) is false.
 //@ axioms index_sorted
+//@ (assert (forall ((p (_ BitVec 64))) (! (= (tree_of (tree_of p)) (tree_of p)) :pattern ((tree_of p)))))
 //@ (assert (forall ((p (_ BitVec 64))) (! (and (bvule (p_lo (tree_of p)) (p_lo p)) (bvule (p_lo p) (p_hi p)) (bvule (p_hi p) (p_hi (tree_of p))) (bvule (p_hi (tree_of p)) #x0000ffffffffffff)) :pattern ((p_lo p)) :pattern ((p_hi p)))))
 //@ (assert (forall ((t (_ BitVec 64)) (k Slice)) (! (and (bvule (p_lo t) (ifirst t k)) (bvule (ifirst t k) (p_hi t))) :pattern ((ifirst t k)))))
 //@ (assert (forall ((t (_ BitVec 64)) (k Slice) (j (_ BitVec 64))) (! (=> (and (bvule (p_lo t) j) (bvult j (p_hi t))) (= (bvult j (ifirst t k)) (not (srch k (ix_payload t j))))) :pattern ((ifirst t k) (ix_payload t j)))))
